@@ -1,6 +1,6 @@
 CONSTANTS MAX = 24  OVERHEAD = 8  Deviation = "none"  FlushGrain = 4
-Sizes = {0, 4, 8, 15, 16}  MaxBatches = 3  MaxPerBatch = 3  WithCrash = TRUE
-InitDirs <- DirsAll
+Sizes = {0, 4, 8, 15, 16}  MaxBatches = 2  MaxPerBatch = 3  WithCrash = TRUE
+InitDirs <- DirsSmall
 SPECIFICATION Spec
 INVARIANT TypeOK
 INVARIANT RecordStream
